@@ -107,6 +107,46 @@ def with_alts(alts, contract):
     return c
 
 
+class _RootFrame:
+    """stand-in frame so that root-level post-checks can record obligations"""
+    def __init__(self, inst):
+        self.inst = inst
+
+
+def post_invariants(I, inst, results, arg_vals):
+    """TYINV at exit: every object reachable from the root's (reference) arguments must still
+    satisfy its type invariant in every outcome (e.g. an iterator's window after `next`)"""
+    fr = _RootFrame(inst)
+
+    def walk(st, v, tid, depth, seen):
+        if depth > 6 or v is None:
+            return
+        if isinstance(v, RefV) and isinstance(v.lv, LVObj) and not isinstance(v.lv.obj, tuple):
+            if v.lv.obj in seen:
+                return
+            seen.add(v.lv.obj)
+            ty = I.P.types[tid] if tid is not None else None
+            to = ty['to'] if ty and ty['kind'] in ('ref', 'ptr') else None
+            walk(st, st.heap.get(v.lv.obj), to, depth + 1, seen)
+        elif isinstance(v, AdtV) and v.fields is not None and not isinstance(v.tid, tuple):
+            I.models.check_invariant(I, fr, st, v.tid, v, inst.loc, 'at exit of ' + inst.path.rsplit('::', 1)[-1])
+            ty = I.P.types[v.tid]
+            if ty['kind'] == 'adt' and v.variant is not None and v.variant < len(ty['variants']):
+                fts = [f['ty'] for f in ty['variants'][v.variant]['fields']]
+            elif ty['kind'] == 'tuple':
+                fts = ty['fields']
+            else:
+                fts = [None] * len(v.fields)
+            for f, ft in zip(v.fields, fts):
+                walk(st, f, ft, depth + 1, seen)
+
+    for st, ret in results:
+        seen = set()
+        for i, a in enumerate(arg_vals):
+            walk(st, a, inst.locals[i + 1], 0, seen)
+        walk(st, ret, inst.locals[0], 0, seen)
+
+
 def variants_for(P, inst):
     """[(variant name, contract or None, post-check or None)]"""
     p = inst.path
